@@ -365,6 +365,9 @@ class ReadWalker:
                         raise self.ctx.err(s.orelse[0], 'else branch of is_tag_next is neither a single raise nor self.<field> = None')
                     self.add(s, field_node, tag, kind, guard, mult)
                     continue
+                ne = self.nonempty_check(s)
+                if ne:
+                    continue
                 raise self.ctx.err(s, 'unrecognised if: %s' % _dump(s.test))
             if isinstance(s, ast.While):
                 tag = self.tag_next_test(s.test)
@@ -383,6 +386,11 @@ class ReadWalker:
                         and _is_name(ap.value.args[0], field_node.id)):
                     raise self.ctx.err(ap, 'while is_tag_next: expected <list>.append(<obj>): %s' % _dump(ap))
                 lst = ap.value.func.value
+                prev = self.items[-1] if self.items else None
+                if prev is not None and prev.get('first_of') == ast.dump(lst) and (prev['tag'], prev['kind']) == (tag, kind) \
+                        and (prev['lo'], prev['hi']) == guard and prev['mult'] == 'Req':
+                    prev['mult'] = 'Many1'          # one element, then `while is_tag_next`: at least one
+                    continue
                 if isinstance(lst, ast.Name):
                     if lst.id not in self.local_lists:
                         raise self.ctx.err(ap, 'append to a list that was not initialised empty: %s' % lst.id)
@@ -446,6 +454,22 @@ class ReadWalker:
                     raise self.ctx.err(s, 'nested structure read without kmip_version=kmip_version')
                 if isinstance(target, ast.Name):
                     self.add(s, '<local:%s>' % target.id, tag, kind, guard, 'Req')
+                    # `xs.append(obj)` right after: the first element of a repeated field, decoded outside its loop
+                    if i < len(stmts):
+                        ap = stmts[i]
+                        if isinstance(ap, ast.Expr) and isinstance(ap.value, ast.Call) and isinstance(ap.value.func, ast.Attribute) \
+                                and ap.value.func.attr == 'append' and len(ap.value.args) == 1 and _is_name(ap.value.args[0], target.id):
+                            lst = ap.value.func.value
+                            it = self.items[-1]
+                            if isinstance(lst, ast.Name) and lst.id in self.local_lists:
+                                it['field'] = '<local:%s>' % lst.id
+                                self.local_lists[lst.id].append(it)
+                            elif _self_attr(lst):
+                                it['field'] = self.ctx.field_of(lst)[0]
+                            else:
+                                raise self.ctx.err(ap, 'append target not understood: %s' % _dump(lst))
+                            it['first_of'] = ast.dump(lst)
+                            i += 1
                 else:
                     self.add(s, target, tag, kind, guard, 'Req')
                 continue
@@ -464,6 +488,43 @@ class ReadWalker:
                 self.done = True
                 continue
             raise self.ctx.err(s, 'unrecognised statement in read(): %s' % _dump(s))
+
+    def nonempty_check(self, s):
+        """`if len(xs) == 0: raise [else: self._f = xs]` | `if not xs: raise` | `if xs: self._f = xs else: raise`
+        directly after the loop that filled the local list xs  ->  the repeated item becomes Many1"""
+        t = s.test
+        lst, empty_branch, other = None, None, None
+        if isinstance(t, ast.Compare) and len(t.ops) == 1 and isinstance(t.ops[0], ast.Eq) \
+                and isinstance(t.left, ast.Call) and _is_name(t.left.func, 'len') and len(t.left.args) == 1 \
+                and isinstance(t.left.args[0], ast.Name) and isinstance(t.comparators[0], ast.Constant) and t.comparators[0].value == 0:
+            lst, empty_branch, other = t.left.args[0].id, s.body, s.orelse
+        elif isinstance(t, ast.UnaryOp) and isinstance(t.op, ast.Not) and isinstance(t.operand, ast.Name):
+            lst, empty_branch, other = t.operand.id, s.body, s.orelse
+        elif isinstance(t, ast.Name):
+            lst, empty_branch, other = t.id, s.orelse, s.body
+        if lst is None or lst not in self.local_lists:
+            return False
+        if not (len(empty_branch) == 1 and isinstance(empty_branch[0], ast.Raise)):
+            raise self.ctx.err(s, 'emptiness test on %s does not raise on the empty list' % lst)
+        items = self.local_lists[lst]
+        if len(items) != 1 or items[0] is not self.items[-1] and not all(i.get('alt_of') is items[0] for i in []):
+            # the list must have been filled by exactly one loop, the one just before this test
+            if not (len({(i['tag'], i['kind']) for i in items}) == 1 and items[-1] is self.items[-1]):
+                raise self.ctx.err(s, 'emptiness test on a list filled by several different loops')
+        if other:
+            if not (len(other) == 1 and isinstance(other[0], ast.Assign) and len(other[0].targets) == 1
+                    and _self_attr(other[0].targets[0]) and _is_name(other[0].value, lst)):
+                raise self.ctx.err(other[0], 'non-empty branch is not self.<field> = %s' % lst)
+            f = self.ctx.field_of(other[0].targets[0])[0]
+            for it in items:
+                it['field'] = f
+        if len(items) == 1:
+            items[0]['mult'] = 'Many1'
+        else:
+            # the same list filled under disjoint version guards: the check applies to whichever loop ran
+            for it in items:
+                it['mult'] = 'Many1'
+        return True
 
     def is_reset(self, s, field_node):
         return isinstance(s, ast.Assign) and len(s.targets) == 1 and isinstance(s.value, ast.Constant) \
@@ -522,6 +583,7 @@ class WriteWalker:
         self.trailer = 0        # 0: body, 1: length set, 2: header written, 3: body copied
         self.flags = set()
         self.minver = None
+        self.nonempty = set()   # fields guarded by `if len(self._xs) == 0: raise`
 
     def write_call(self, s, buf=None):
         """`<target>.write(buf, kmip_version=kmip_version)` -> target node"""
@@ -561,6 +623,18 @@ class WriteWalker:
         self.items.append({'field': f[0], 'lo': guard[0], 'hi': guard[1], 'mult': mult, 'test': test,
                            'line': node.lineno, 'has_v': has_v})
 
+    def nonempty_guard(self, s):
+        """`if len(self._xs) == 0: raise` before the loop over self._xs -> field name"""
+        if isinstance(s, ast.If) and not s.orelse and len(s.body) == 1 and isinstance(s.body[0], ast.Raise):
+            t = s.test
+            if isinstance(t, ast.Compare) and len(t.ops) == 1 and isinstance(t.ops[0], ast.Eq) \
+                    and isinstance(t.left, ast.Call) and _is_name(t.left.func, 'len') and len(t.left.args) == 1 \
+                    and isinstance(t.comparators[0], ast.Constant) and t.comparators[0].value == 0:
+                f = self.ctx.field_of(t.left.args[0])
+                if f:
+                    return f[0]
+        return None
+
     def for_loop(self, s):
         """`for x in self._xs: x.write(buf, ...)` -> (list node, has_v)"""
         if isinstance(s, ast.For) and isinstance(s.target, ast.Name) and not s.orelse and len(s.body) == 1:
@@ -593,6 +667,10 @@ class WriteWalker:
             if self.trailer or (top and self.is_trailer_start(s)):
                 self.trailer_step(s, top)
                 continue
+            ne = self.nonempty_guard(s)
+            if ne:
+                self.nonempty.add(ne)
+                continue
             if isinstance(s, ast.If):
                 vt = version_test(s.test)
                 if vt is not None:
@@ -615,7 +693,11 @@ class WriteWalker:
                 if fl:
                     target, has_v, mult = fl[0], fl[1], 'Many'
                     if s.orelse:
-                        raise self.ctx.err(s, 'repeated field with an else branch (at-least-one check) is not expressible')
+                        if not (len(s.orelse) == 1 and isinstance(s.orelse[0], ast.Raise)):
+                            raise self.ctx.err(s.orelse[0], 'else branch of a repeated field is not a single raise')
+                        if style == 'is_not_none':
+                            raise self.ctx.err(s, '`is not None` test with a raising else on a repeated field: an empty list would be written as nothing')
+                        mult = 'Many1'              # `if self._xs: for ... else: raise`: an empty list is refused
                 elif wc:
                     target, has_v = wc
                     if not s.orelse:
@@ -631,9 +713,14 @@ class WriteWalker:
                     raise self.ctx.err(s, 'presence test on %s guards a write of %s' % (field, _dump(target)))
                 self.add(s, target, guard, mult, style, has_v)
                 continue
+            ne = self.nonempty_guard(s)
+            if ne:
+                self.nonempty.add(ne)
+                continue
             fl = self.for_loop(s)
             if fl:
-                self.add(s, fl[0], guard, 'Many', 'none', fl[1])
+                f = self.ctx.field_of(fl[0])
+                self.add(s, fl[0], guard, 'Many1' if f and f[0] in self.nonempty else 'Many', 'none', fl[1])
                 continue
             wc = self.write_call(s)
             if wc:
@@ -890,9 +977,26 @@ def coq_kind(k):
     return {'prim': 'KPrim %s', 'enum': 'KEnum "%s"', 'struct': 'KStruct "%s"'}[k[0]] % k[1]
 
 
+def coq_pval(p):
+    """dispatch key: ('text', str) | ('enum', int)"""
+    if p[0] == 'text':
+        return 'VText [%s]' % ';'.join(str(b) for b in p[1].encode('utf-8'))
+    if p[0] == 'enum':
+        return 'VEnum %d' % p[1]
+    raise KeyError(p[0])
+
+
+def coq_by(by):
+    if not by:
+        return 'None'
+    rows = ';\n                '.join('(%s, (%d, %s))' % (coq_pval(tuple(k)), tag, coq_kind(tuple(kind))) for k, tag, kind in by['table'])
+    return '(Some {| by_ix := %d; by_skip_if_absent := %s; by_table := [\n                %s] |})' % (
+        by['ix'], 'true' if by['skip_if_absent'] else 'false', rows)
+
+
 def coq_item(it):
-    return '{| i_tag := %d; i_kind := %s; i_lo := %d; i_hi := %d; i_mult := %s |}' % (
-        it['tag'], coq_kind(it['kind']), it['lo'], it['hi'], it['mult'])
+    return '{| i_tag := %d; i_kind := %s; i_lo := %d; i_hi := %d; i_mult := %s; i_by := %s |}' % (
+        it['tag'], coq_kind(it['kind']), it['lo'], it['hi'], it['mult'], coq_by(it.get('by')))
 
 
 def render_coq(t):
